@@ -285,7 +285,7 @@ impl Parser {
     fn block(&mut self, lb_token: Token) -> miette::Result<Stmt> {
         let mut statements = vec![];
 
-        while !self.check(&LeftBrace) && !self.is_at_end() {
+        while !self.check(&RightBrace) && !self.is_at_end() {
             // evil code that took 6 hours to figure out
             if self.match_token(&SoftSemi) {
                 continue;
